@@ -377,7 +377,16 @@ pub fn sess_json(s: Option<&Session>) -> Value {
             let arr = |x: &Value| -> Vec<u8> {
                 x.as_array().map(|a| a.iter().map(|b| b.as_u64().unwrap() as u8).collect()).unwrap_or_default()
             };
-            let plen = v["uplink"]["pending_len"].as_u64().unwrap() as usize;
+            // a field missing from the document is observed as its neutral value (and flagged): the serialised
+            // form is what a restore would see
+            let mut missing = 0u8;
+            let mut num = |x: &Value| -> u64 {
+                x.as_u64().unwrap_or_else(|| {
+                    missing = 1;
+                    0
+                })
+            };
+            let plen = num(&v["uplink"]["pending_len"]) as usize;
             let pdata = arr(&v["uplink"]["pending_data"]);
             // keys / address serialise as byte arrays (possibly nested in newtypes)
             fn flat(x: &Value, out: &mut Vec<u8>) {
@@ -396,12 +405,13 @@ pub fn sess_json(s: Option<&Session>) -> Value {
             flat(&v["devaddr"], &mut addr);
             json!({
                 "has": 1, "nwk": bytes(&nwk), "app": bytes(&app), "addr": bytes(&addr),
-                "up": pair(v["fcnt_up"].as_u64().unwrap()),
-                "down": if v["fcnt_down"].is_null() { json!([]) } else { pair(v["fcnt_down"].as_u64().unwrap()) },
-                "adrcnt": v["adr_ack_cnt"].as_u64().unwrap().min(1_000_000_000),
+                "up": pair(num(&v["fcnt_up"])),
+                "down": if v["fcnt_down"].is_null() { json!([]) } else { pair(num(&v["fcnt_down"])) },
+                "adrcnt": num(&v["adr_ack_cnt"]).min(1_000_000_000),
                 "pending": bytes(&pdata[..plen.min(pdata.len())]),
-                "ackowed": v["uplink"]["confirmed"].as_bool().unwrap() as u8,
-                "confirmed": v["confirmed"].as_bool().unwrap() as u8,
+                "ackowed": v["uplink"]["confirmed"].as_bool().unwrap_or(false) as u8,
+                "confirmed": v["confirmed"].as_bool().unwrap_or(false) as u8,
+                "doc_incomplete": missing,
             })
         }
     }
